@@ -124,6 +124,8 @@ def install():
         bus = CUR
         if bus is None or PROBING:
             return o_exec(self)
+        global CALLS
+        CALLS = 0
         bus.dispatch_serial += 1
         prev = bus.in_event
         bus.in_event = self
@@ -249,6 +251,69 @@ def install():
         for f in bus.table['asset_initialized']:
             f(self, env)
     Asset.initialize = a_initialize
+    enable_call_budget()
+
+
+class CallBudgetExceeded(Exception):
+    """More library function entries inside ONE dispatched event than any correct handler needs:
+    the handler does not terminate (logical budget, independent of machine load)."""
+
+
+CALLS = 0
+CALL_LIMIT = 2000000
+_budget_on = False
+
+
+def enable_call_budget():
+    """Count entries into the library's functions (sys.monitoring PY_START, local events on the
+    library's code objects only) and raise inside the handler when one dispatched event exceeds
+    CALL_LIMIT of them.  The counter is reset at every dispatch."""
+    global _budget_on
+    if _budget_on:
+        return
+    _budget_on = True
+    import types
+    mon = sys.monitoring
+    tool = 4
+    try:
+        mon.use_tool_id(tool, 'simmon')
+    except ValueError:
+        return
+    seen = set()
+
+    def add_code(co):
+        if id(co) in seen:
+            return
+        seen.add(id(co))
+        mon.set_local_events(tool, co, mon.events.PY_START)
+        for c in co.co_consts:
+            if isinstance(c, types.CodeType):
+                add_code(c)
+
+    for name, mod in list(sys.modules.items()):
+        if not name.startswith('simprocesd.model') or mod is None:
+            continue
+        for obj in vars(mod).values():
+            if isinstance(obj, types.FunctionType) and obj.__module__ == name:
+                add_code(obj.__code__)
+            elif isinstance(obj, type) and obj.__module__ == name:
+                for v in vars(obj).values():
+                    f = getattr(v, '__func__', v)
+                    if isinstance(f, types.FunctionType):
+                        add_code(f.__code__)
+                    elif isinstance(v, property):
+                        for g in (v.fget, v.fset):
+                            if g is not None:
+                                add_code(g.__code__)
+
+    def on_start(code, offset):
+        global CALLS
+        CALLS += 1
+        if CALLS > CALL_LIMIT:
+            CALLS = 0
+            raise CallBudgetExceeded(f'more than {CALL_LIMIT} library calls inside one event (in {code.co_name})')
+
+    mon.register_callback(tool, mon.events.PY_START, on_start)
 
 
 def action_name(action):
